@@ -232,7 +232,7 @@ class Engine(
         """  # noqa: D401
         match operation:
             case Calculation(tag=tag):
-                if select.is_compound:
+                if select.is_compound or tag in select.skip_to.columns:
                     # This Select wraps a Chain operation in order to represent
                     # a SQL UNION or UNION ALL, and we trust the user's intent
                     # in putting those upstream of this operation, so we also
